@@ -286,20 +286,20 @@ type httpReport struct {
 	Body   string `json:"body"`
 }
 
-// httpTask sends one request through the real restful handlers.
-func httpTask(inst *Instance, tag, method, url string, body []byte) {
-	var rd *bytes.Reader
-	if body != nil {
-		rd = bytes.NewReader(body)
-	} else {
-		rd = bytes.NewReader(nil)
-	}
-	req := httptest.NewRequest(method, url, rd)
+// doHTTP sends one request through the real restful handlers (in-process, no socket).
+func doHTTP(inst *Instance, method, url string, body []byte) (int, string) {
+	req := httptest.NewRequest(method, url, bytes.NewReader(body))
 	req.Header.Set("Content-Type", "application/json")
 	req.Header.Set("Accept", "application/json")
 	rec := httptest.NewRecorder()
 	inst.container.ServeHTTP(rec, req)
-	report("w.http", httpReport{Tag: tag, Method: method, URL: url, Code: rec.Code, Body: rec.Body.String()})
+	return rec.Code, rec.Body.String()
+}
+
+// httpTask sends one request and reports the answer to the world.
+func httpTask(inst *Instance, tag, method, url string, body []byte) {
+	code, rb := doHTTP(inst, method, url, body)
+	report("w.http", httpReport{Tag: tag, Method: method, URL: url, Code: code, Body: rb})
 }
 
 var _ = http.StatusOK
